@@ -374,6 +374,7 @@ func runProperty(repo, specs, prop, tier, out string) int {
 	// is where the machinery's own soundness bugs were found.)
 	if tier == "thorough" && os.Getenv("VERIF_NO_REPLAY") == "" {
 		bcStart := time.Now()
+		var bcSolver *Solver
 		nFn, nObls, nSat, nRepro := 0, 0, 0, 0
 		for _, fr := range runs {
 			if fr.x.FC == nil || fr.x.FC.Trusted || time.Since(bcStart) > 4*time.Minute {
@@ -409,10 +410,15 @@ func runProperty(repo, specs, prop, tier, out string) int {
 				}
 			}
 			nObls += len(cands)
-			solver.SolveAll(cands, 16)
+			if bcSolver == nil {
+				bcSolver = NewSolver(filepath.Join(out, prop+"-bounded"), 8*time.Second, false)
+			}
+			bcSolver.SolveAll(cands, 16)
 			tried := 0
 			for _, o := range cands {
-				if o.Status != "sat" || tried >= 3 {
+				// anything not refuted is worth a model search (a definitive `sat` is rare: the queries carry
+				// quantified background axioms); what counts is only whether the real code fails on the input
+				if o.Status == "unsat" || tried >= 3 || time.Since(bcStart) > 5*time.Minute {
 					continue
 				}
 				nSat++
@@ -436,7 +442,7 @@ func runProperty(repo, specs, prop, tier, out string) int {
 				}
 			}
 		}
-		stats["bounded_crosscheck"] = map[string]any{"functions_with_loops": nFn, "unroll": 2, "obligations": nObls, "models_found": nSat, "reproduced_on_real_code": nRepro,
+		stats["bounded_crosscheck"] = map[string]any{"functions_with_loops": nFn, "unroll": 2, "obligations": nObls, "not_refuted_and_searched": nSat, "reproduced_on_real_code": nRepro,
 			"secs": time.Since(bcStart).Seconds(), "note": "bounded stand-in, never counted as proved: searches for failing inputs independently of the loop invariants"}
 	}
 	writeEvidence(vd, prop, tier, seed, results, funcsUnder, trusted, usedC, time.Since(t0), violations, cfg, stats, knownSeen)
